@@ -6,6 +6,8 @@ def run(tier, seed, replay=None):
     rep = Report("C11", tier, seed)
     mc = tlc_must_pass("Rounding", "RoundingMC.cfg" if tier == "thorough" else "RoundingMCq.cfg", workers=10, timeout=1800, heap="8g")
     rep.add_tlc(mc)
+    # unbounded: the same lemma for EVERY integer number of unrounded seconds (any offset), by induction over the wrap loop
+    apalache_inductive(rep, "RoundingInd")
     if tier == "thorough":
         args = ["--stride", 1, "--sites", 2]
     else:
